@@ -481,6 +481,7 @@ def main_threads(prop, tier, seed, budget):
     known = load_known()
     out_lines = []; exit_code = 0; reported = 0; known_hits = {}
     final_dir = os.path.join(ROOT, 'replays', prop)
+    shutil.rmtree(final_dir, ignore_errors=True)
     seen = set(); cands = []
     for v in viol:
         key = (v['oracle'], race_fn(v['text']) if v['oracle'] == 'data_race' else '')
@@ -678,6 +679,7 @@ def main():
     exit_code = 0
     out_lines = []
     final_dir = os.path.join(ROOT, 'replays', prop)
+    shutil.rmtree(final_dir, ignore_errors=True)   # replays of earlier runs are stale by definition
     reported = 0
     known_hits = {}
     tmpdir = tempfile.mkdtemp(prefix='simmin-', dir=os.path.join(ROOT, 'replays', 'tmp'))
